@@ -351,23 +351,6 @@ theorem C10_cli_write (B : Builtins) (a : CWArgs) (o : CWOut) :
 /-- A name accepted by the gate consists of ASCII upper-case letters, digits and `_` only, apart from one
 optional trailing newline (Python's `$`): in particular no `/`, `.`, `\`, lower-case letter or NUL, so the file
 names `load_schema_by_name` builds stay inside the search directories. -/
-theorem nameBodyThenEnd_chars : ∀ (s : Str), nameBodyThenEnd s = true →
-    ∀ c ∈ s, isNameBody c = true ∨ c = '\n'
-  | [], _ => by simp
-  | [c], h => by
-    intro d hd
-    simp only [List.mem_cons, List.mem_nil_iff, or_false] at hd; subst hd
-    simp only [nameBodyThenEnd, Bool.or_eq_true, beq_iff_eq] at h
-    rcases h with h | h
-    · exact Or.inr h
-    · exact Or.inl h
-  | c :: c2 :: rest, h => by
-    intro d hd
-    simp only [nameBodyThenEnd, Bool.and_eq_true] at h
-    rcases List.mem_cons.mp hd with rfl | hd
-    · exact Or.inl h.1
-    · exact nameBodyThenEnd_chars (c2 :: rest) h.2 d hd
-
 theorem C10_name_gate_chars (s : Str) (h : schemaNameOk s = true) :
     ∀ c ∈ s, isNameBody c = true ∨ c = '\n' := by
   cases s with
@@ -443,11 +426,12 @@ theorem C10_sites :
                                    && (s.lit == "VALIDATED" || s.lit == "INVALID"))).all
       (fun s => s.guards.contains "has_schema") = true := by decide
 
-/-- … INVALID sites additionally by a non-empty `validation_errors`, and no site in the tools assigns
-validation_status outside these (the initial UNVALIDATED comes from the literal). -/
+/-- … INVALID sites additionally by a non-empty error list (`validation_errors`, or `blocking_errors` in the shape
+of fix F37), and no site in the tools assigns validation_status outside these (the initial UNVALIDATED comes from
+the literal). -/
 theorem C10_sites_invalid_needs_errors :
     (assignSites.filter (fun s => s.key == "validation_status" && s.lit == "INVALID")).all
-      (fun s => s.guards.contains "validation_errors") = true := by decide
+      (fun s => s.guards.contains "validation_errors" || s.guards.contains "blocking_errors") = true := by decide
 
 /-- `valid` is assigned only next to validation_status, in the same block, and with the matching value. -/
 theorem C10_sites_valid_paired :
@@ -469,9 +453,8 @@ today implies a builtin schema was found (see `C10_cli_validate_partial`). -/
 theorem C10_sites_cli :
     (assignSites.filter (fun s => (s.tool == "cli_validate" || s.tool == "cli_write")
                                    && (s.lit == "VALIDATED" || s.lit == "INVALID")
-                                   && !(s.guards.contains "schema_def is not None"))) =
-      [⟨"cli_validate", "validate", "validation_status", "<local>", "VALIDATED",
-        ["fix and validation_errors", "schema", "not validation_errors"], 18⟩] := by decide
+                                   && !(s.guards.contains "schema_def is not None"))).map (fun s => (s.tool, s.lit, s.guards)) =
+      [("cli_validate", "VALIDATED", ["fix and validation_errors", "schema", "not validation_errors"])] := by decide
 
 /-- The stages whose failure the model turns into an UNVALIDATED error envelope (parse, read, load, emit, write
 …) are inside an `except Exception` guard in the source, and every other stage has the guard the model assumes:
